@@ -234,8 +234,20 @@ GUARDED = [
     ('OMPLoopTrans', 'validate'),
 ]
 
+
+PREDICATES = [
+    ("psyclone.psyir.tools.dependency_tools.DependencyTools", "_independent_0_var", True),
+    ("psyclone.psyir.tools.dependency_tools.DependencyTools", "_independent_multi_subscript", True),
+    ("psyclone.psyir.tools.dependency_tools.DependencyTools", "_is_loop_carried_dependency", True),
+    ("psyclone.psyir.tools.dependency_tools.DependencyTools", "_array_access_parallelisable", True),
+    ("psyclone.psyir.tools.dependency_tools.DependencyTools", "_is_scalar_parallelisable", True),
+    ("psyclone.core.symbolic_maths.SymbolicMaths", "never_equal", True),
+]
+
 def check(idx, run):
     run.explanation = __doc__
+    from sa.guards import check_predicates
+    check_predicates(idx, run, "C09.R7", PREDICATES)
     from sa.guards import check_guards
     check_guards(idx, run, "C09.R6", GUARDED)
     from rules.common_parallel import check_fresh_unknown
